@@ -22,6 +22,18 @@ Reading.
 * raw MIDI files (not written by partitura) exercise the two readers: on well-formed ones (per channel and
   pitch a chain of notes that at most touch, note offs partly written as zero-velocity note ons) the notes read
   must be the notes written; on arbitrary ones only model and reader are compared.
+* tempo marks: one set_tempo per tick in the first track; when several marks (of one part or of different parts)
+  fall on one tick the one read last (part after part, mark after mark) is written - the choice under which the
+  code is right (a single global tempo cannot honour both); theorem tempo_last_wins, oracle clause tempo(file).
+* "the same mode on import recovers the same grouping": besides the partition, the harness compares the part number
+  and voice of every imported note with `writtenCells` (theorem roundtrip_cells): the cell that
+  assign_group_part_voice gives to the (track, channel) of the note's key.
+* `create_part`: the part gets ONE quarter duration, the file's ticks per quarter, at time 0, and every note is
+  placed from its onset tick to onset + duration (theorem create_part_placement, oracle clause divs(import));
+  measures, ties and tuplets of the created part are C11's subject.
+* the vocabulary of the whole-pipeline theorems (Model/ScoreMidiSpec.lean: routedTo, trackKS, trackTS, trackTempo,
+  scoreRows, importedRows, writtenCells) is printed by the driver (`expspec`, `rt`) and compared with what the real
+  exporter wrote and the real readers read, separately from the model of the exporter itself.
 * a `pad_bar` origin that is not a multiple of a tick (bar length of the first signature not representable in
   any division of the score, e.g. 3/8 with one division per quarter) is outside the generated domain
   (`ticks_integral_pad_partial` states the hypothesis; counter-example in Props/C04.lean).
@@ -38,7 +50,8 @@ import gen_score as G
 
 PROPERTY = "C04"
 DRIVER = "drv_c04"
-PROPS = ["PartituraModel.Props.C04", "PartituraModel.Props.C04Export", "PartituraModel.Props.C04Sigs"]
+PROPS = ["PartituraModel.Props.C04", "PartituraModel.Props.C04Export", "PartituraModel.Props.C04Sigs",
+         "PartituraModel.Props.C04Cells"]
 TRUSTED = [
     "mido: message (de)serialisation, variable-length delta times, end_of_track appended on save; the file is "
     "written to a buffer and read back with mido.MidiFile before anything is compared",
@@ -60,14 +73,14 @@ PARTIAL = [
     "for an irregular measure (whole beats, or halved beats up to /128 after fix C04-9, truncated when not dyadic) and "
     "the dropping of the first of two signatures at one tick are modelled and compared; the oracle demands the "
     "signature in force at every measure start (a non-zero numerator where the length is not a whole number of beats)",
-    "tempo_positions: one event per tick, every event a tempo mark at its tick, every mark's tick covered; WHICH of "
-    "two marks on one tick survives (the one read last) is modelled and compared, not stated as a theorem",
     "parts with different metres merged into one track (modes 1, 2, 4) give a track with two signatures at one tick; "
     "when the importer's part construction rejects such a file the import is neither compared nor judged",
     "the theorems are about the models (saveScoreMidi / loadScoreMidi and their named pieces); that save_score_midi / "
     "load_score_midi compute the modelled functions, and that the theorems' vocabulary (routedTo, trackKS, trackTS, "
-    "trackTempo, scoreRows, importedRows of Model/ScoreMidiSpec.lean) means what the real file holds, is established "
+    "trackTempo, scoreRows, importedRows, writtenCells of Model/ScoreMidiSpec.lean) means what the real file holds, is established "
     "by the differential run only",
+    "saveScoreMidi returning (`h` of the export theorems: origin defined, no NaN signature, no negative first tick) is a "
+    "hypothesis; that the import of an export returns is proved (roundtrip_total)",
     "create_part: only the quarter duration it sets and the placement of the notes in divisions (create_part_placement); "
     "measures, ties, tuplets, symbolic durations of the created part are C11's subject",
     "the imported signature / tempo positions (sanitize step, global tracks) are modelled and compared, not proved",
@@ -92,7 +105,10 @@ LEVEL_TEXT = ("Lean 4 theorems over all scores: for every list of parts, mode, a
               "of (onset, duration) in quarters and pitch (score_roundtrip, also from the note objects with tie chains "
               "merged), key / time signatures and tempo marks stand at the ticks of their positions "
               "(key_signature_positions, time_signature_positions, time_sig_change_positions, tempo_positions, "
-              "pad_bar_offset), the created parts have ppq divisions per quarter (create_part_placement); on top of the "
+              "tempo_last_wins, pad_bar_offset), the created parts have ppq divisions per quarter (create_part_placement), "
+              "every note comes back in the (part, voice) cell of its key and two notes share a cell exactly when the mode "
+              "retains their grouping (roundtrip_cells, grouping_recovered), the import of an export returns "
+              "(roundtrip_total); on top of the "
               "per-track theorems (integer ticks, ppq = lcm * 2^k minimal, delta round trip, stable event order, pairing "
               "automaton, six modes). Tied to the code by a differential run of the real save_score_midi / "
               "load_score_midi / load_performance_midi against the executable models AND against the theorems' "
@@ -963,8 +979,10 @@ def eval_score(d):
             pnotes = [dict(n, track=pp.track) for pp in perf.performedparts for n in pp.notes]
             # ---- the model of the exporter, and the vocabulary of the theorems against the real file: what each
             # track must hold (one request: the parts are sent once)
-            ev.requests.append("expspec %s %s" % (args, ptoks))
-            ev.impl.append(exp_text + "#" + spec_text(sd, order, rows, anac, tracks, pnotes))
+            # (the (part, voice) of the imported notes is filled in below, once the importer has run)
+            spec_slot = len(ev.requests)
+            ev.requests.append("expspec 0 %s %s" % (args, ptoks))
+            ev.impl.append(exp_text + "#" + spec_text(sd, order, rows, anac, tracks, pnotes) + "|-")
         if ci == 0:
             # the same export from the note objects (tie chains merged by the model); independent of the configuration
             ev.requests.append("exps %s %s" % (args, stoks))
@@ -1007,6 +1025,13 @@ def eval_score(d):
             readers(2, ["err"])
             ev.oracle.append("import raised: [%s] load_score_midi raised %s: %s" % (tag, type(e3).__name__, str(e3)[:120]))
         else:
+            if pnotes is not None:
+                # the (part, voice) in which every note came back (`writtenCells` of roundtrip_cells)
+                ev.requests[spec_slot] = "expspec 1 %s %s" % (args, ptoks)
+                ev.impl[spec_slot] = ev.impl[spec_slot][:-1] + W.f_list(
+                    lambda c: W.f_tuple(W.f_int(c[0]), W.f_int(c[1]), W.f_int(c[2]), W.f_int(c[3]), W.f_int(c[4])),
+                    sorted((n.start.t, int(n.midi_pitch), n.duration_tied, int(p2.id[1:]) - 1, int(n.voice or 0))
+                           for p2 in sc2.parts for n in p2.notes_tied))
             # the imported parts, and their notes in musical time (`importedRows` of score_roundtrip)
             readers(6, [import_text(sc2),
                         rows_text((Fraction(n.start.t, mf.ticks_per_beat) + org, Fraction(n.duration_tied, mf.ticks_per_beat),
